@@ -26,3 +26,61 @@ pub fn generate(tier: &str, seed: u64) -> Vec<String> {
     }
     out
 }
+
+/// C04: elision. Same operations as C01, fill-heavy data (half of the writes are entirely fill, the rest mostly fill,
+/// repeated-fill strings, -0.0 / NaN payload neighbours), elision on and off, key listing after every operation.
+pub fn generate_c04(tier: &str, seed: u64) -> Vec<String> {
+    let mut rng = Rng::new(seed ^ 0xC04);
+    let thorough = tier == "thorough";
+    let ncfg = if thorough { 4000 } else { 350 };
+    let mut out = vec![];
+    for k in 0..ncfg {
+        let mut cfg = gen_cfg(&mut rng, if k % 3 == 0 { Some(true) } else { None });
+        // prefer the fills that are easy to confuse: non-zero, NaN, -0.0, non-empty strings
+        if cfg.dtype.fills.len() > 1 && rng.chance(2, 3) { cfg.fill = cfg.dtype.fills[rng.range(1, cfg.dtype.fills.len() as u64 - 1) as usize].clone(); }
+        let empty = k % 4 == 3;
+        out.push(cfg.cfg_line("c04", "memory", empty, false, ""));
+        let nops = if thorough { rng.range(2, 24) } else { rng.range(2, 10) };
+        for _ in 0..nops {
+            let mut op = gen_write_op(&mut rng, &cfg);
+            if rng.chance(1, 2) {
+                // rewrite the data to be entirely fill / almost entirely fill
+                if let Some(p) = op.find(" data=") {
+                    let n = if &op[p + 6..] == "~" { 0 } else { op[p + 6..].split('.').count() };
+                    let mut xs: Vec<Vec<u8>> = vec![cfg.fill.1.clone(); n];
+                    if n > 0 && rng.chance(1, 2) {
+                        let i = rng.below(n as u64) as usize;
+                        xs[i] = near_fill(&mut rng, &cfg);
+                    }
+                    op = format!("{} data={}", &op[..p], show_elems(&xs));
+                }
+            }
+            out.push(format!("c04 {}", op));
+            out.push("c04 op keys".to_string());
+        }
+        gen_full_reads(&mut rng, &cfg, &mut out, "c04");
+    }
+    out
+}
+
+/// an element that is easily confused with the fill value
+fn near_fill(rng: &mut Rng, cfg: &Cfg) -> Vec<u8> {
+    let f = &cfg.fill.1;
+    match cfg.dtype.es {
+        None => match rng.below(4) {
+            0 => f.repeat(2),
+            1 => { let mut x = f.clone(); x.push(b'a'); x }
+            2 => if f.is_empty() { vec![b'a'] } else { f[..f.len() - 1].to_vec() },
+            _ => vec![],
+        },
+        Some(es) => {
+            if cfg.dtype.name == "bool" { return vec![1 - f[0].min(1)]; }
+            let mut x = f.clone();
+            match rng.below(3) {
+                0 => { x[es - 1] ^= 0x80; x }   // sign bit: -0.0 vs 0.0, NaN sign
+                1 => { x[0] ^= 0x01; x }         // lowest bit: NaN payload, subnormal
+                _ => { let i = rng.below(es as u64) as usize; x[i] = x[i].wrapping_add(1); x }
+            }
+        }
+    }
+}
